@@ -27,7 +27,13 @@ type sigInfo struct {
 	fn      *types.Func
 }
 
+type missingAnchor struct {
+	fc  *FuncContract
+	why string
+}
+
 type Gen struct {
+	missing     []missingAnchor
 	prog         *ssa.Program
 	pkgs         []*packages.Package
 	byPath       map[string]*packages.Package
@@ -178,6 +184,12 @@ func loadGen(repoDir string, patterns []string, extDir string) (*Gen, error) {
 			if err := g.resolveContract(fc); err != nil {
 				if fc.Trusted {
 					// trusted contracts for packages that are not loaded are skipped silently
+					continue
+				}
+				if strings.Contains(err.Error(), "contract anchor not found") {
+					// the function (or closure) this contract is written on is gone: a failed obligation of its own
+					// ("anchor"), reported for the contract's properties; everything else is still checked
+					g.missing = append(g.missing, missingAnchor{fc, err.Error()})
 					continue
 				}
 				return g, fmt.Errorf("%s: %v", cf.Path, err)
